@@ -118,6 +118,24 @@ class Prop(PropBase):
                         t += 2
                     lines += ['R 0', 'E']
                     scn.append('\n'.join(lines))
+        # two instances of one type, packets interleaved: instance 1 crosses its split angle with the FIRST block of a packet whose
+        # azimuth equals the last azimuth of the packet instance 0 handled just before (the split state belongs to the instance)
+        for ti, name in enumerate(types):
+            l = self.L[name]
+            s1 = rng.choice([18000, 9000, 100])
+            X = s1 + 5
+            cfg0 = pktgen.Cfg(angle=0, pktcb=1, wait=1); cfg1 = pktgen.Cfg(angle=s1, pktcb=1, wait=1)
+            def pk(azs):
+                return l.msop([(a % 36000, [(rng.choice([400, 2000]), b % 256)] * l.nchan) for b, a in enumerate(azs)])
+            n = l.nblk
+            b_before = [X - 20 * (n - k) for k in range(n)]              # instance 1: ..., X-40, X-20
+            a_mid = [X - 41 * (n - 1 - k) for k in range(n)]             # instance 0: ..., X-41, X   (ends exactly at X)
+            b_after = [X + 20 * k for k in range(n)]                     # instance 1: X, X+20, ...  (first block crosses s1)
+            lines = [f'S c03_pair_{name}', cfg0.line(0, l), 'I 0', cfg1.line(1, l), 'I 1', 'W 10',
+                     'P 0 ' + l.difop(rpm=600).hex(), 'P 1 ' + l.difop(rpm=600).hex(),
+                     'W 12', 'P 1 ' + pk(b_before).hex(), 'W 14', 'P 0 ' + pk(a_mid).hex(), 'W 16', 'P 1 ' + pk(b_after).hex(),
+                     'W 18', 'P 0 ' + pk([X + 41 * (k + 1) for k in range(n)]).hex(), 'R 0', 'R 1', 'E']
+            scn.append('\n'.join(lines))
         out.append(('drv', '\n'.join(scn) + '\n'))
         return out
 
